@@ -307,11 +307,6 @@ theorem unmarshaled_batch (s : Server) (hpool : s.pool ≠ .full) (entries : Lis
     List.nil_append]
   split <;> simp_all
 
-/-- `jdumps(response)` with the guard of the fixed code. -/
-def finalReply (s : Server) (response : PyVal) : Reply :=
-  if serialisable response then .doc response
-  else .doc (faultDump s.cfg { code := .int codeInternal, message := .str msgSerialize })
-
 /-- The two forms of an error object (no `data`). -/
 theorem error_v2 (ver : Nat) (h : ver ≥ 20) (rid c m : PyVal) :
     Payload.error ver rid c m .none =
@@ -337,49 +332,121 @@ theorem response_v1 (ver : Nat) (h : ver < 20) (rid r : PyVal) :
   have h' : ¬ ver ≥ 20 := by omega
   simp [Payload.response, h']
 
-theorem serialisable_faultDump_noid (cfg : Config) (c : Int) (m : String) :
-    serialisable (faultDump cfg { code := .int c, message := .str m }) = true := by
-  simp only [faultDump]
-  by_cases h : cfg.version ≥ 20
-  · rw [error_v2 _ h]; simp [serialisable, serialisableKVs, jsonKey]
-  · rw [error_v1 _ (by omega)]; simp [serialisable, serialisableKVs, jsonKey]
+/- ---------- per-response serialisation (`_safe_jdumps`) ---------- -/
 
-theorem faultResponse_ok (cfg : Config) (c : Int) (m : String) :
-    faultResponse cfg { code := .int c, message := .str m } = .ok (faultDump cfg { code := .int c, message := .str m }) := by
-  simp [faultResponse, jdumps, serialisable_faultDump_noid, pure, Except.pure]
+/-- `response.get("id")` on a response object. -/
+def respId : PyVal → PyVal
+  | .dict kvs => (lookupStr "id" kvs).getD .none
+  | _ => .none
 
-theorem marshaled_parseError (s : Server) :
-    marshaledDispatch s .parseError =
-      (.ok (.doc (faultDump s.cfg { code := .int codeParse, message := .str msgParse })), []) := by
-  simp [marshaledDispatch, faultResponse_ok, Except.map]
+/-- `"jsonrpc" in response` on a response object. -/
+def respHasJsonrpc : PyVal → Bool
+  | .dict kvs => hasKeyStr "jsonrpc" kvs
+  | _ => false
 
-theorem marshaled_falsy (s : Server) (e : PyVal) (hf : e.truthy = false) :
-    marshaledDispatch s (.parsed e) = (.ok (.doc (faultDump s.cfg (invalidFault msgNoData))), []) := by
-  simp [marshaledDispatch, unmarshaledDispatch, hf, jdumps, invalidFault, serialisable_faultDump_noid,
-    pure, Except.pure]
+/-- The id a replaced response keeps: the id itself when `jdumps` accepts it on its own, else `null`. -/
+def keptId (rid : PyVal) : PyVal := if serialisable rid then rid else .none
 
-theorem marshaled_single (s : Server) (hpool : s.pool ≠ .full) (e : PyVal)
-    (ht : e.truthy = true) (hl : e.isList = false) :
-    marshaledDispatch s (.parsed e) =
-      (.ok (match respond s e with
-            | Option.none => .empty
-            | some d => finalReply s d), entryEffects s e) := by
-  simp only [marshaledDispatch, unmarshaled_single s e ht hl, entryStep_eq, entryNF_ok s hpool e]
-  cases respond s e with
-  | none => rfl
-  | some d =>
-    by_cases hs : serialisable d = true <;>
-      simp [jdumps, finalReply, hs, raise, pure, Except.pure, faultResponse_ok, Except.map]
+/-- The −32603 response that stands in for a response object which `jdumps` rejects: same form
+    (2.0 when the response has a `jsonrpc` member, else 1.0), the kept id. -/
+def replacement (d : PyVal) : PyVal :=
+  Payload.error (if respHasJsonrpc d then 20 else 10) (keptId (respId d)) (.int codeInternal) (.str msgSerialize) .none
 
-theorem marshaled_batch (s : Server) (hpool : s.pool ≠ .full) (entries : List PyVal) (hne : entries ≠ []) :
-    marshaledDispatch s (.parsed (.list entries)) =
-      (.ok (if (entries.filterMap (respond s)).isEmpty then .empty
-            else finalReply s (.list (entries.filterMap (respond s)))), entries.flatMap (entryEffects s)) := by
-  simp only [marshaledDispatch, unmarshaled_batch s hpool entries hne]
-  by_cases h : (entries.filterMap (respond s)).isEmpty = true
-  · simp [h, raise]
-  · by_cases hs : serialisable (.list (entries.filterMap (respond s))) = true <;>
-      simp [h, jdumps, finalReply, hs, raise, pure, Except.pure, faultResponse_ok, Except.map]
+/-- What is sent for the response object `d`: `d`, or its replacement when it cannot be serialised. -/
+def sent (d : PyVal) : PyVal := if serialisable d then d else replacement d
+
+/-- The last step of `_marshaled_dispatch`: `jdumps(response)`, and when that fails every response is
+    serialised on its own (`_safe_jdumps`). -/
+def finalReply (s : Server) (response : PyVal) : Reply :=
+  if serialisable response then .doc response
+  else match response with
+    | .list rs => .doc (.list (rs.map sent))
+    | d => .doc (sent d)
+
+theorem serialisable_list (xs : List PyVal) : serialisable (.list xs) = xs.all serialisable := by
+  simp only [serialisable]
+  induction xs with
+  | nil => rfl
+  | cons x rest ih => simp [serialisableList, ih]
+
+theorem serialisableKVs_lookup (k : String) (kvs : List (PyVal × PyVal)) (v : PyVal)
+    (h : serialisableKVs kvs = true) (hl : lookupStr k kvs = some v) : serialisable v = true := by
+  induction kvs with
+  | nil => simp [lookupStr] at hl
+  | cons kv rest ih =>
+    obtain ⟨key, w⟩ := kv
+    simp only [serialisableKVs, Bool.and_eq_true] at h
+    cases key <;> simp only [lookupStr] at hl <;> try exact ih h.2 hl
+    split at hl
+    · injection hl with hl; subst hl; exact h.1.2
+    · exact ih h.2 hl
+
+theorem serialisable_keptId (rid : PyVal) : serialisable (keptId rid) = true := by
+  unfold keptId
+  split
+  · assumption
+  · rfl
+
+theorem serialisable_error (ver : Nat) (rid : PyVal) (c : Int) (m : String) (h : serialisable rid = true) :
+    serialisable (Payload.error ver rid (.int c) (.str m) .none) = true := by
+  by_cases hv : ver ≥ 20
+  · rw [error_v2 _ hv]; simp [serialisable, serialisableKVs, jsonKey, h]
+  · rw [error_v1 _ (by omega)]; simp [serialisable, serialisableKVs, jsonKey, h]
+
+theorem serialisable_replacement (d : PyVal) : serialisable (replacement d) = true :=
+  serialisable_error _ _ _ _ (serialisable_keptId _)
+
+theorem serialisable_sent (d : PyVal) : serialisable (sent d) = true := by
+  unfold sent
+  split
+  · assumption
+  · exact serialisable_replacement d
+
+theorem msgExc_serialize : msgExc "TypeError" "<not JSON serializable>" = msgSerialize := by decide
+
+/-- `_safe_jdumps` on a dictionary never raises and sends `sent`. -/
+theorem safeJdumps_dict (kvs : List (PyVal × PyVal)) : safeJdumps (.dict kvs) = .ok (sent (.dict kvs)) := by
+  by_cases hs : serialisable (.dict kvs) = true
+  · simp [safeJdumps, jdumps, hs, sent, pure, Except.pure]
+  · have hs' : serialisable (.dict kvs) = false := by simpa using hs
+    simp only [safeJdumps, jdumps, hs', Bool.false_eq_true, ↓reduceIte, raise, dictGet, pure, Except.pure,
+      containsStr, faultResponseAs, internalFault, errText, msgExc_serialize, sent, replacement, respHasJsonrpc,
+      respId, keptId]
+    by_cases hr : serialisable ((lookupStr "id" kvs).getD PyVal.none) = true
+    · simp [hr, serialisable_error _ _ _ _ hr] <;> rfl
+    · simp [hr, serialisable_error _ PyVal.none _ _ (by rfl)] <;> rfl
+
+theorem safeJdumpsAll_dicts (rs : List PyVal) (h : ∀ d ∈ rs, ∃ kvs, d = .dict kvs) :
+    safeJdumpsAll rs = .ok (rs.map sent) := by
+  induction rs with
+  | nil => rfl
+  | cons r rest ih =>
+    obtain ⟨kvs, hr⟩ := h r (by simp)
+    subst hr
+    have := ih (fun d hd => h d (by simp [hd]))
+    simp [safeJdumpsAll, safeJdumps_dict, this, pure, Except.pure]
+
+theorem map_sent_of_serialisable (rs : List PyVal) (h : serialisable (.list rs) = true) : rs.map sent = rs := by
+  rw [serialisable_list] at h
+  induction rs with
+  | nil => rfl
+  | cons r rest ih =>
+    simp only [List.all_cons, Bool.and_eq_true] at h
+    simp [sent, h.1, ih h.2]
+
+/-- The reply array: every response object replaced individually (the identity on the serialisable ones). -/
+theorem finalReply_list (s : Server) (rs : List PyVal) : finalReply s (.list rs) = .doc (.list (rs.map sent)) := by
+  unfold finalReply
+  split
+  · rename_i h; rw [map_sent_of_serialisable rs h]
+  · rfl
+
+theorem finalReply_dict (s : Server) (kvs : List (PyVal × PyVal)) :
+    finalReply s (.dict kvs) = .doc (sent (.dict kvs)) := by
+  unfold finalReply
+  split
+  · rename_i h; simp [sent, h]
+  · rfl
 
 /- ---------- shape of response objects ---------- -/
 
@@ -451,6 +518,71 @@ theorem respond_shape (s : Server) (e : PyVal) (d : PyVal) (h : respond s e = so
     · rw [← hid]
       cases hn : notifNF kvs <;> cases hp : s.pool <;> simp [hn, hp, raise] at h
       all_goals (subst h; exact respOf_shape _ _ _ _)
+
+theorem shape_dict {ver : Nat} {rid d : PyVal} (h : RespShape ver rid d) : ∃ kvs, d = .dict kvs := by
+  cases h with
+  | result r => simp only [Payload.response]; split <;> exact ⟨_, rfl⟩
+  | error c m =>
+    by_cases hv : ver ≥ 20
+    · exact ⟨_, error_v2 ver hv rid _ _⟩
+    · exact ⟨_, error_v1 ver (by omega) rid _ _⟩
+
+/-- Every response object is a dictionary (so `response.get("id")` in `_safe_jdumps` cannot raise). -/
+theorem respond_dict (s : Server) (e d : PyVal) (h : respond s e = some d) : ∃ kvs, d = .dict kvs := by
+  obtain ⟨ver, _, hs⟩ := respond_shape s e d h
+  exact shape_dict hs
+
+theorem serialisable_faultDump_noid (cfg : Config) (c : Int) (m : String) :
+    serialisable (faultDump cfg { code := .int c, message := .str m }) = true := by
+  simp only [faultDump]
+  by_cases h : cfg.version ≥ 20
+  · rw [error_v2 _ h]; simp [serialisable, serialisableKVs, jsonKey]
+  · rw [error_v1 _ (by omega)]; simp [serialisable, serialisableKVs, jsonKey]
+
+theorem faultResponse_ok (cfg : Config) (c : Int) (m : String) :
+    faultResponse cfg { code := .int c, message := .str m } = .ok (faultDump cfg { code := .int c, message := .str m }) := by
+  simp [faultResponse, jdumps, serialisable_faultDump_noid, pure, Except.pure]
+
+theorem marshaled_parseError (s : Server) :
+    marshaledDispatch s .parseError =
+      (.ok (.doc (faultDump s.cfg { code := .int codeParse, message := .str msgParse })), []) := by
+  simp [marshaledDispatch, faultResponse_ok, Except.map]
+
+theorem marshaled_falsy (s : Server) (e : PyVal) (hf : e.truthy = false) :
+    marshaledDispatch s (.parsed e) = (.ok (.doc (faultDump s.cfg (invalidFault msgNoData))), []) := by
+  simp [marshaledDispatch, unmarshaledDispatch, hf, jdumps, invalidFault, serialisable_faultDump_noid,
+    pure, Except.pure]
+
+theorem marshaled_single (s : Server) (hpool : s.pool ≠ .full) (e : PyVal)
+    (ht : e.truthy = true) (hl : e.isList = false) :
+    marshaledDispatch s (.parsed e) =
+      (.ok (match respond s e with
+            | Option.none => .empty
+            | some d => finalReply s d), entryEffects s e) := by
+  simp only [marshaledDispatch, unmarshaled_single s e ht hl, entryStep_eq, entryNF_ok s hpool e]
+  cases hr : respond s e with
+  | none => rfl
+  | some d =>
+    obtain ⟨kvs, hd⟩ := respond_dict s e d hr
+    subst hd
+    by_cases hs : serialisable (.dict kvs) = true
+    · simp [jdumps, finalReply, hs, raise, pure, Except.pure]
+    · simp [jdumps, finalReply, hs, raise, pure, Except.pure, safeJdumps_dict, Except.map]
+
+theorem marshaled_batch (s : Server) (hpool : s.pool ≠ .full) (entries : List PyVal) (hne : entries ≠ []) :
+    marshaledDispatch s (.parsed (.list entries)) =
+      (.ok (if (entries.filterMap (respond s)).isEmpty then .empty
+            else finalReply s (.list (entries.filterMap (respond s)))), entries.flatMap (entryEffects s)) := by
+  simp only [marshaledDispatch, unmarshaled_batch s hpool entries hne]
+  by_cases h : (entries.filterMap (respond s)).isEmpty = true
+  · simp [h, raise]
+  · have hd : ∀ d ∈ entries.filterMap (respond s), ∃ kvs, d = PyVal.dict kvs := by
+      intro d hd
+      obtain ⟨e, _, he⟩ := List.mem_filterMap.mp hd
+      exact respond_dict s e d he
+    by_cases hs : serialisable (.list (entries.filterMap (respond s))) = true
+    · simp [h, jdumps, finalReply, hs, raise, pure, Except.pure]
+    · simp [h, jdumps, finalReply, hs, raise, pure, Except.pure, safeJdumpsAll_dicts _ hd, Except.map]
 
 /- ---------- what the property text calls a well-formed request / a notification ---------- -/
 
